@@ -20,6 +20,7 @@ import (
 	"strconv"
 	"strings"
 	"sync"
+	"time"
 )
 
 // Backend answers the data endpoints of one tenant.
@@ -64,7 +65,7 @@ type Server struct {
 }
 
 func NewServer() (*Server, error) {
-	ln, err := net.Listen("tcp", "127.0.0.1:0")
+	ln, err := listenRetry()
 	if err != nil {
 		return nil, err
 	}
@@ -190,4 +191,17 @@ func FormatTimeMs(ms int64) string {
 		return strconv.FormatInt(ms/1000, 10)
 	}
 	return strconv.FormatFloat(float64(ms)/1000, 'f', 3, 64)
+}
+
+// listenRetry binds an ephemeral port; when the ephemeral range is momentarily exhausted (many short
+// connections in TIME_WAIT while several checks run at once) it waits and retries instead of failing.
+func listenRetry() (ln net.Listener, err error) {
+	for i := 0; i < 120; i++ {
+		ln, err = net.Listen("tcp", "127.0.0.1:0")
+		if err == nil || !strings.Contains(err.Error(), "address already in use") {
+			return ln, err
+		}
+		time.Sleep(500 * time.Millisecond)
+	}
+	return ln, err
 }
